@@ -16,7 +16,7 @@ def shape_class(nodes):
     return kinds
 
 
-def run_plain(world, case, cfg=None, ctx=None, layout=0, rename_frags=False, reverse_defs=False):
+def run_plain(world, case, cfg=None, ctx=None, layout=0, rename_frags=False, reverse_defs=False, initial=None):
     """execute the case's request without gates; returns (response, CaseState, DocText)"""
     eng = world.engine(cfg)
     doc = render.DocText(case["nodes"], layout=layout, rename_frags=rename_frags, reverse_defs=reverse_defs)
@@ -27,10 +27,11 @@ def run_plain(world, case, cfg=None, ctx=None, layout=0, rename_frags=False, rev
     variables = variables_py(case["given"])
     loop = main_loop()
     try:
-        resp = loop.run(eng.execute(doc.text, operation_name=op_name(case), context=ctx, variables=variables))
+        resp = loop.run(eng.execute(doc.text, operation_name=op_name(case), context=ctx, variables=variables, initial_value=initial))
     except BaseException as e:  # an exception escaping execute is itself an observation
         resp = {"__raised__": repr(e)}
     world.case = None
+    cs.root_id = world.ident(initial)
     return resp, cs, doc
 
 
@@ -46,8 +47,9 @@ def compare_calls(case, cs, exact=True):
         if e is None:
             out.append("unexpected resolver call at %s" % (list(path),))
             continue
-        if parent != e["parent"]:
-            out.append("call %s parent %r != expected %r" % (list(path), parent, e["parent"]))
+        want_parent = e["parent"] if len(path) > 1 else getattr(cs, "root_id", "")     # root fields receive the caller's initial value
+        if parent != want_parent:
+            out.append("call %s parent %r != expected %r" % (list(path), parent, want_parent))
         ea = args_py(e["args"])
         if not render.strict_eq(dict(sorted(args.items())), dict(sorted(ea.items()))):
             out.append("call %s args %r != expected %r" % (list(path), args, ea))
